@@ -88,6 +88,12 @@ impl Vm {
 
   /// Set the current error place the vm signal a runtime error
   pub(super) fn set_error(&mut self, error: Instance) -> ExecutionSignal {
+    // an error raised by the clauses of a catch block must not be
+    // delivered to that same catch block again
+    if self.fiber.is_unwinding() {
+      self.fiber.error_while_handling();
+    }
+
     self.fiber.set_error(error);
     ExecutionSignal::RuntimeError
   }
